@@ -60,6 +60,9 @@ fn inspect(acc: &mut Acc, case: &Case, buf: &[u8], sub: &str) {
         t
     })
     .unwrap_or_default();
+    probe!(acc, case, &format!("iterator methods (nth/skip/step_by/fold/last/size_hint){sub}"), {
+        let _ = real::iterate_variants(&msg);
+    });
     probe!(acc, case, &format!("raw_attribute/has_attribute{sub}"), {
         for t in &universe {
             let _ = msg.raw_attribute(AttributeType::new(*t));
